@@ -201,3 +201,35 @@ def r5(cx):
     o = origin_of_operand(vb, ld[0].args[0])
     cx.check("visible_seq_num" in o.field_names(), "get_visible_seq_num loads visible_seq_num", "visible-source", vb.where(),
              "get_visible_seq_num reads %s instead of visible_seq_num: readers could adopt an unpublished horizon" % sorted(o.field_names()))
+
+
+@rule("C05", "C05.R6", "a batch is inserted into the active memtable under the lock that rotation needs exclusively")
+def r6(cx):
+    """Rotation (rotate_memtable / flush of the active memtable) takes `active_memtable` for writing before it seals the
+    memtable; a committer that inserts its batch while holding the read side can therefore never be half-way through a
+    batch when the memtable is sealed and flushed.  Necessary condition decided here: every `MemTable::add` reached from
+    the production CommitEnv::apply lies inside a guard region of `CoreInner.active_memtable`, and the sealing side takes
+    the write guard before it swaps the memtable."""
+    from ..core import guard_regions, lock_wrappers
+    f = cx.f
+    bs = [b for b in f.scan_bodies() if b.name == "apply" and b.impl_trait and b.impl_trait.endswith("CommitEnv") and not b.file.endswith("commit.rs")]
+    cx.floor("production CommitEnv::apply implementations", len(bs), 1)
+    w = lock_wrappers(f)
+    for b in bs:
+        gs = [g for g in guard_regions(b, w) if g.lock == "CoreInner.active_memtable"]
+        adds = [c for c in b.calls if c.bb in b.live and c.names & {"MemTable::add"}]
+        cx.floor("MemTable::add sites in %s" % b.id, len(adds), 1)
+        for c in adds:
+            held = [g for g in gs if c.bb in g.region]
+            cx.check(bool(held), "`%s`: the batch is inserted while `active_memtable` is held (%s)" % (b.id, ",".join(g.mode for g in held)), "apply-outside-memtable-lock|%s" % b.id, c.where(),
+                     "`%s` inserts the batch into the memtable without holding CoreInner.active_memtable: a concurrent rotation + flush can seal and flush the "
+                     "memtable between two entries of the batch, and the rest of the batch lands in a memtable no reader consults -> a transaction becomes "
+                     "visible in part" % b.id)
+            # the memtable that is written is the one read under that guard
+            o = origin_of_operand(b, c.args[0])
+            cx.check(any(g.call in o.calls for g in held) or not held, "the memtable written is the one behind the guard", "apply-other-memtable|%s" % b.id, c.where())
+    for fn in ("CoreInner::rotate_memtable",):
+        rb = f.body(fn)
+        wg = [g for g in guard_regions(rb, w) if g.lock == "CoreInner.active_memtable" and g.mode == "write"]
+        sw = [c for c in rb.calls if c.bb in rb.live and c.primary.endswith("mem::replace")]
+        cx.check(bool(wg) and bool(sw) and all(any(c.bb in g.region for g in wg) for c in sw), "rotation swaps the active memtable under its write guard", "rotate-without-write-lock", rb.where())
